@@ -13,6 +13,7 @@ import (
 	"fmt"
 	"math"
 	"net"
+	"reflect"
 	"strings"
 	"sync"
 	"testing"
@@ -558,6 +559,15 @@ func TestVerifC04History(t *testing.T) {
 			rt.Fatalf("VIOL[c04-serverfactory]: %v", err)
 		}
 		hour0 := vfHourNow()
+		// A handshake stamped with hour E is valid while the server's clock shows
+		// E-1..E+1, i.e. for up to three hours: the filter must remember that long.
+		// (The wait itself cannot be performed; expiry semantics are C11's.)
+		if osf, ok := sf.(*obfs4ServerFactory); ok && osf.replayFilter != nil {
+			ttl := time.Duration(reflect.ValueOf(osf.replayFilter).Elem().FieldByName("ttl").Int())
+			if ttl < 3*time.Hour {
+				rt.Fatalf("VIOL[c04-ttl-shorter-than-window]: the replay filter forgets handshakes after %v, but a stamped hour stays valid for up to 3h: a replay is accepted once the entry has expired", ttl)
+			}
+		}
 		type sent struct {
 			hs       []byte
 			accepted bool
